@@ -8,10 +8,19 @@
        satisfies 2^(n-1) <= max(C0, 4B+8), i.e. n <= 1 + log2(bound): independent of the number of rounds.
    Tie to the code: engine E7 runs periodic and seeded recycling patterns for N and 100*N rounds on the crate under the
    ledger allocator and evaluates exactly these bounds (kinds c18-x); the first rounds of every pattern are also replayed
-   on M2 (Heap.reserve_inner, the branch-for-branch transliteration) through engine E1.  Open obligation: the simulation
-   lemma between Heap.reserve_inner and Recycle.reserve (two transliterations of the same function). *)
+   on M2 (Heap.reserve_inner, the branch-for-branch transliteration) through engine E1.
+   C18_reserve_simulates_policy (RecycleSim.v) closes the gap between the two transliterations: in every state satisfying the
+   global invariant of M2, one BytesMut::reserve of M2 (all six branches of m_reserve / reserve_inner, including realloc and the
+   copy path) IS one `Recycle.reserve` step on the abstraction of the handle, with a delivered capacity g that meets
+   reserve_grow_ok whenever the oracle stays within std's amortised bound, and the model's allocation events are counted
+   exactly by `allocs`.  C18_m2_recycling_bounded (RecycleRun.v) is the end-to-end statement ON M2: over any history, of any
+   length, of reserve / extend_from_slice / truncate / clear / advance / split_to on the recycling handle and drops of the
+   parts, the storage the handle sits on stays <= max(C0, 4B+8); its proof composes the global invariant of M2 (C02), the
+   step simulations of RecycleSim.v (each API call = one or two policy steps) and the policy invariant. *)
+From stdpp Require Import gmap.
 From Coq Require Import ZArith List Lia.
 Import ListNotations.
+From BV Require Base Heap HeapWF HeapWFOps RecycleSim RecycleRun.
 From BV Require Import Recycle.
 Local Open Scope Z_scope.
 
@@ -31,7 +40,37 @@ Definition C18_example : list op :=
 Example C18_nonvacuous : ops_ok0 0 40 (init 0) C18_example /\ V (run (init 0) C18_example) = 30 /\ allocs (run (init 0) C18_example) = 2.
 Proof. vm_compute. intuition (try discriminate; auto). Qed.
 
+(* tie of M3 to M2: reserve of the representation model is one step of the policy *)
+Theorem C18_reserve_simulates_policy : forall orc a h x s e x1 s1 e1 r al,
+  HeapWF.WF s -> Heap.hs s !! h = Some x -> RecycleSim.absr s x al = Some r -> Heap.m_reserve orc a x s e = Heap.OK x1 s1 e1 ->
+  len r + Z.of_N a + off r <= Z.of_N Base.usize_max -> 2 * V r <= Z.of_N Base.usize_max ->
+  (forall need, Z.of_N (Heap.or_pick orc need) <= Z.max (Z.max (2 * V r) (Z.of_N need)) 8) ->
+  exists g, RecycleSim.absr s1 x1 (al + (RecycleSim.nalloc e1 - RecycleSim.nalloc e)) = Some (reserve r (Z.of_N a) g)
+            /\ reserve_grow_ok (RecycleSim.orig_of s x) r (Z.of_N a) g /\ RecycleSim.orig_of s1 x1 = RecycleSim.orig_of s x.
+Proof. exact RecycleSim.m_reserve_sim. Qed.
+(* every step of the recycling grammar on M2 keeps the simulation relation (global invariant of M2, unchanged original capacity,
+   abstraction of the handle inside the policy invariant) *)
+Theorem C18_m2_step_keeps_simulation : forall B C0 orig h, 0 <= B -> 0 <= orig <= C0 ->
+  2 * bound B C0 + B <= Z.of_N Base.usize_max -> bound B C0 <= Z.of_N Heap.MAX_VEC_POS ->
+  forall orc o s e rv s1 e1, RecycleRun.Sim B C0 orig h s -> HeapWFOps.op_ok s (RecycleRun.to_op h o) ->
+    (forall r al, RecycleSim.absh s h al = Some r -> RecycleRun.rop_ok B orc h r o) ->
+    Heap.hstep orc (RecycleRun.to_op h o) s e = Heap.OK rv s1 e1 -> RecycleRun.Sim B C0 orig h s1.
+Proof. exact RecycleRun.sim_step. Qed.
+Theorem C18_m2_recycling_bounded : forall B C0 orig h, 0 <= B -> 0 <= orig <= C0 ->
+  2 * bound B C0 + B <= Z.of_N Base.usize_max -> bound B C0 <= Z.of_N Heap.MAX_VEC_POS ->
+  forall s e tr s2 e2, RecycleRun.Sim B C0 orig h s -> RecycleRun.rrun B h s e tr s2 e2 ->
+  exists k o l c kd st, Heap.hs s2 !! h = Some (Heap.HM k o l c kd) /\ Heap.sts s2 !! k = Some st /\
+    Z.of_N (Heap.s_size st) <= bound B C0 /\ Z.of_N o + Z.of_N c <= Z.of_N (Heap.s_size st).
+Proof. exact RecycleRun.m2_recycling_bounded. Qed.
+Example C18_m2_recycling_nonvacuous : RecycleRun.Sim 100 64 0 RecycleRun.ex_h RecycleRun.ex_s0 /\
+  exists s2 e2, RecycleRun.rrun 100 RecycleRun.ex_h RecycleRun.ex_s0 [] RecycleRun.ex_tr s2 e2.
+Proof. exact (conj RecycleRun.ex_sim0 RecycleRun.m2_recycling_nonvacuous). Qed.
+
 Print Assumptions C18_bounded_buffer.
 Print Assumptions C18_bounded_allocs.
 Print Assumptions C18_invariant_step.
 Print Assumptions C18_nonvacuous.
+Print Assumptions C18_reserve_simulates_policy.
+Print Assumptions C18_m2_step_keeps_simulation.
+Print Assumptions C18_m2_recycling_bounded.
+Print Assumptions C18_m2_recycling_nonvacuous.
